@@ -337,14 +337,18 @@ C07Cases == (IF Has("TS") THEN {[fam |-> "TS", c |-> c] : c \in TSCases} ELSE {}
             \cup (IF Has("ER") THEN {[fam |-> "ER", c |-> c] : c \in ERCases} ELSE {})
             \cup (IF Has("EL") THEN {[fam |-> "EL", c |-> c] : c \in ELCases} ELSE {})
             \cup (IF Has("RP") THEN {[fam |-> "RP", c |-> c] : c \in RPCases} ELSE {})
-\* the programs of RPMany rounds need more steps than MaxSteps (EnumTerminates: none of them runs into the bound)
+\* the programs of RPMany rounds need more steps than MaxSteps (EnumTerminates: none of them runs into the larger bound).
+\* Enumeration run: every program is run step by step, every state and transition checked, for its first MaxSteps steps (the
+\* bound under which all other programs live: about twenty rounds); beyond that k steps are one transition, the state
+\* invariants being checked on every k-th state.  (TLC's cost per state - fingerprint and queue of a heap of a thousand
+\* records - is six times the cost of the step itself.)
 C07LongSteps == 40000
-C07LongNext == ~Halted(mst) /\ mst' = Step(mst, C07LongSteps) /\ UNCHANGED <<rec_i, cur>>
-\* the judge re-runs the reference next to the engine's observation; for records marked `rounds` (family RP) it takes k
-\* steps per transition under the larger bound (the invariants of the machine are checked on every single state of the
-\* same programs in the enumeration run)
 RECURSIVE StepK(_, _)
 StepK(st, k) == IF k = 0 \/ Halted(st) THEN st ELSE StepK(Step(st, C07LongSteps), k - 1)
+C07EnumNext == /\ ~Halted(mst) /\ UNCHANGED <<rec_i, cur>>
+               /\ mst' = IF mst.steps >= MaxSteps THEN StepK(mst, 25) ELSE Step(mst, C07LongSteps)
+\* the judge re-runs the reference next to the engine's observation; for records marked `rounds` (family RP) it takes k
+\* steps per transition under the larger bound
 C07JudgeNext == /\ ~Halted(mst) /\ UNCHANGED <<rec_i, cur>>
                 /\ mst' = IF "rounds" \in DOMAIN Recs[rec_i] THEN StepK(mst, 25) ELSE Step(mst, MaxSteps)
 C07EnumInit == /\ rec_i = 0 /\ cur \in C07Cases /\ mst = InitState(C07Prog(cur), {})
@@ -352,7 +356,8 @@ C07EnumEmit == ~Halted(mst) \/ PrintT(ToJson([fam |-> cur.fam, par |-> cur.c, pr
 \* a finally block that has been entered is left before its try statement's continuation frame disappears, and a thrown
 \* value reaches a catch parameter unchanged: checked as an action property over every transition of every program
 CatchGetsThrown ==
-  [][(mst.ctl.m = "C" /\ mst.ctl.c.c = "throw" /\ mst.k # <<>> /\ Top(mst).f = "try" /\ Top(mst).ph = "block" /\ Top(mst).t.c.s # "none")
+  [][(mst.ctl.m = "C" /\ mst.ctl.c.c = "throw" /\ mst.k # <<>> /\ Top(mst).f = "try" /\ Top(mst).ph = "block" /\ Top(mst).t.c.s # "none"
+      /\ mst.steps < MaxSteps)                                                  \* (single-step transitions, see C07EnumNext)
       => (mst'.ctl.m = "S" /\ mst'.heap[mst'.env].vars[Top(mst).t.cv] = mst.ctl.c.v /\ Len(mst'.k) = Len(mst.k) + 1)]_vars
 
 \* ======================= shift law ======================================================================
